@@ -33,9 +33,11 @@ func checkC04(r *core.Run) {
 	r.Explanation = "C04 (topology and identity clauses only): charge-once identity — in Store and RenewOrder exactly one charge lies on every success path, outside loops, its amount is the value persisted as Order.Amount and it precedes the order's persistence; escrow topology — every bank call site matches the closed table of flows: order escrow pays only the market escrow (the whole order amount), the owner's/payer's payment address or the DID ledger; market escrow pays only order escrow, the claiming provider (its own worker account) or the owner's payment address. Price formula, income accrual, refund arithmetic and the sum identity are runtime quantities and are not decided."
 	r.Rule("T-charge: one SendCoinsFromAccountToModule per success path, not in a loop, amount ≡ persisted Order.Amount, charge on every path to the order's persistence")
 	r.Rule("E7-flow: closed table of money flows (modules, counter-party, amount form) — any new or altered outflow is reported")
+	r.Rule("T-refund-booked: a refund paid from the market escrow for an order that stays alive lowers Order.Amount by the refunded coin and the order is persisted, in the same function")
 	r.Assume(aDeps)
 	r.Assume(aCG)
 	ruleFlows(r, "C04")
+	ruleRefundBooked(r)
 
 	// ---- Store
 	if fn := r.Func("T-charge", "sao/keeper.msgServer.Store"); fn != nil {
@@ -241,7 +243,8 @@ func checkC05(r *core.Run) {
 		for i, c := range calls {
 			nSites++
 			key := core.Key("T-cancel-pre", r.P.Name(f), fmt.Sprintf("CancelOrder#%d", i+1))
-			isPending, _ := ck.MustPass(c.Block(), []guard.Atom{guard.Eq("*.Status", pending)})
+			ordStatus := "*" + fGetOrder + "(*)#0.Status"
+			isPending, _ := ck.MustPass(c.Block(), []guard.Atom{guard.Eq(ordStatus, pending)})
 			shardsGone := allShardsRemovedBefore(r, f, c)
 			if isPending || shardsGone {
 				why := "all shards of the order are removed first (for-all RemoveShard over order.Shards)"
@@ -252,7 +255,7 @@ func checkC05(r *core.Run) {
 			} else {
 				r.Violate("T-cancel-pre", key+"|shards gone first", r.P.Pos(c.Pos()), "the order is cancelled (and removed) while its shards may still exist: shards without an order stay assigned to providers forever")
 			}
-			if ok, w := ck.MustPass(c.Block(), []guard.Atom{guard.Ne("*.Status", completed), guard.Eq("*.Status", pending)}); ok {
+			if ok, w := ck.MustPass(c.Block(), []guard.Atom{guard.Ne(ordStatus, completed), guard.Eq(ordStatus, pending)}); ok {
 				r.Discharge("G-refund-state", key+"|not completed", r.P.Pos(c.Pos()), "a full refund is issued only while the order is not Completed")
 			} else {
 				r.Violate("G-refund-state", key+"|not completed", r.P.Pos(c.Pos()), "CancelOrder (full refund) can be reached for an order that is already Completed: the payer is refunded in full although providers have been paid/are earning", w...)
@@ -301,8 +304,7 @@ func sameBlockOrder(fn *ssa.Function, a, b string, r *core.Run) bool {
 func allShardsRemovedBefore(r *core.Run, f *ssa.Function, call ssa.CallInstruction) bool {
 	res := r.Resolver(f)
 	for _, l := range cfgx.Loops(f) {
-		iff := cfgx.IfOf(l.Header)
-		if iff == nil || !strings.Contains(res.Of(iff.Cond).String(), ".Shards)") || !strings.Contains(res.Of(iff.Cond).String(), "builtin.len(") {
+		if !rangesField(r, f, l, "Shards") {
 			continue
 		}
 		rm := map[*ssa.BasicBlock]bool{}
@@ -406,4 +408,40 @@ func ruleSchedMeta(r *core.Run) {
 		}
 	}
 	r.Floor("removemetadata_sites", n, 2)
+}
+
+// ruleRefundBooked: a refund paid out of the market escrow for an order that stays alive (replica reduction)
+// must be booked on that order: the same function lowers Order.Amount by the refunded coin and persists the
+// order on every path after the payout — otherwise a later termination refunds the same money again.
+func ruleRefundBooked(r *core.Run) {
+	n := 0
+	for _, f := range r.P.SortedFuncs(r.ConsensusFuncs()) {
+		res := r.Resolver(f)
+		for _, e := range r.Eff.Own[f] {
+			if e.Kind != "bank.SendCoinsFromModuleToAccount" || len(e.Args) != 3 || e.Args[0].String() != `"market"` {
+				continue
+			}
+			if !strings.Contains(e.Args[1].String(), fPayAddr) {
+				continue // payout to the claiming provider, not an order refund
+			}
+			n++
+			key := core.Key("T-refund-booked", r.P.Name(f), "market refund lowers Order.Amount and is persisted")
+			amt := normT(e.Args[2].String())
+			coin := strings.TrimSuffix(strings.TrimPrefix(amt, "["), "]")
+			okDelta := false
+			for _, d := range deltasOf(r, f) {
+				if d.Field == "order/types.Order.Amount" && d.Sign == -1 && normT(res.Of(d.Ins.Val).String()) != "" && strings.HasSuffix(normT(res.Of(d.Ins.Val).String()), ","+coin+")") {
+					okDelta = true
+				}
+			}
+			set := blocksCalling(r, f, fSetOrder)
+			okSet := len(set) > 0 && (set[e.Instr.Block()] || forwardAvoid(e.Instr.Block(), set, nil, isReturnBlock) == nil)
+			if okDelta && okSet {
+				r.Discharge("T-refund-booked", key, r.P.Pos(e.Instr.Pos()), "Order.Amount -= refunded coin, and SetOrder follows the payout on every path")
+			} else {
+				r.Violate("T-refund-booked", key, r.P.Pos(e.Instr.Pos()), fmt.Sprintf("%s pays a refund out of the market escrow but does not (in the same function) lower the order's recorded Amount by it and persist the order: the money can be refunded again when the order is terminated", r.P.Name(f)))
+			}
+		}
+	}
+	r.Floor("market_refund_sites", n, 1)
 }
